@@ -70,6 +70,11 @@ class SxBytesIO:
         self._check()
         if self._rope is not None:
             raise Unsupported('seek on a rope stream')
+        if whence == 0 and not isinstance(pos, int) and getattr(pos, '__sx_sym__', False) \
+                and hasattr(pos, 'lo') and pos > len(self._buf):
+            # anywhere past the end behaves alike: reads return nothing, tell() reports the position
+            self._pos = pos
+            return pos
         pos = self._c(pos, 'BytesIO.seek position')
         if whence == 0:
             if pos < 0:
@@ -89,6 +94,10 @@ class SxBytesIO:
             raise Unsupported('read on a rope stream')
         if n is None:
             n = -1
+        if not isinstance(self._pos, int):
+            return b''          # symbolic position: only ever stored when it is past the end
+        if not isinstance(n, int) and hasattr(n, 'lo') and (n < 0 or n >= max(0, len(self._buf) - self._pos)):
+            n = -1              # any size that reaches the end reads the same bytes
         n = self._c(n, 'BytesIO.read size')
         end = len(self._buf) if n < 0 else min(len(self._buf), self._pos + n)
         start = min(self._pos, len(self._buf))
